@@ -121,9 +121,10 @@ static void ec_alg_type(EVP_PKEY *pkey, char crv[32], char alg[32])
 }
 
 /* Retrieves and b64url-encodes a single OSSL BIGNUM param and adds it to
- * the JSON object as a string. */
-static void get_one_bn(EVP_PKEY *pkey, const char *ossl_param,
-		       json_t *jwk, const char *name)
+ * the JSON object as a string, left-padded with zeros to at least width
+ * octets. */
+static void get_one_bn_width(EVP_PKEY *pkey, const char *ossl_param,
+			     json_t *jwk, const char *name, int width)
 {
 	/* Get param */
 	BIGNUM *bn = NULL;
@@ -131,8 +132,10 @@ static void get_one_bn(EVP_PKEY *pkey, const char *ossl_param,
 
 	/* Extract data */
 	int len = BN_num_bytes(bn);
+	if (len < width)
+		len = width;
 	unsigned char *bin = OPENSSL_malloc(len);
-	BN_bn2bin(bn, bin);
+	BN_bn2binpad(bn, bin, len);
 	BN_free(bn);
 
 	/* Encode */
@@ -141,6 +144,13 @@ static void get_one_bn(EVP_PKEY *pkey, const char *ossl_param,
 	OPENSSL_free(bin);
 	json_object_set_new(jwk, name, json_string(b64));
 	jwt_freemem(b64);
+}
+
+/* Same, using the minimal length of the number. */
+static void get_one_bn(EVP_PKEY *pkey, const char *ossl_param,
+		       json_t *jwk, const char *name)
+{
+	get_one_bn_width(pkey, ossl_param, jwk, name, 0);
 }
 
 /* Retrieves and b64url-encodes a single OSSL octet param and adds it to
@@ -161,16 +171,24 @@ static void get_one_octet(EVP_PKEY *pkey, const char *ossl_param,
 static void process_ec_key(EVP_PKEY *pkey, int priv, json_t *jwk)
 {
 	char alg_type[32], crv[32];
+	size_t bits = 0;
+	int width;
 
 	ec_alg_type(pkey, crv, alg_type);
 
 	json_object_set_new(jwk, "alg", json_string(alg_type));
 	json_object_set_new(jwk, "crv", json_string(crv));
 
-	get_one_bn(pkey, OSSL_PKEY_PARAM_EC_PUB_X, jwk, "x");
-	get_one_bn(pkey, OSSL_PKEY_PARAM_EC_PUB_Y, jwk, "y");
+	/* RFC 7518 Sec 6.2.1.2: x, y and d are fixed width, the size of the
+	 * curve in octets (32, 48 or 66), including leading zeros. */
+	EVP_PKEY_get_size_t_param(pkey, OSSL_PKEY_PARAM_BITS, &bits);
+	width = (int)((bits + 7) / 8);
+
+	get_one_bn_width(pkey, OSSL_PKEY_PARAM_EC_PUB_X, jwk, "x", width);
+	get_one_bn_width(pkey, OSSL_PKEY_PARAM_EC_PUB_Y, jwk, "y", width);
 	if (priv)
-		get_one_bn(pkey, OSSL_PKEY_PARAM_PRIV_KEY, jwk, "d");
+		get_one_bn_width(pkey, OSSL_PKEY_PARAM_PRIV_KEY, jwk, "d",
+				 width);
 }
 
 /* For EdDSA keys */
